@@ -70,7 +70,7 @@ Snap(v, h, nfc, d) ==
   IF d = 0 THEN [t |-> "deep"]
   ELSE CASE v.t = "arr" -> (LET es == [i \in 1..Len(h[v.r].e) |-> Snap(h[v.r].e[i], h, nfc, d - 1)] IN
                            IF IsListing(h[v.r]) THEN [t |-> "arr", e |-> es, lst |-> h[v.r].lst] ELSE [t |-> "arr", e |-> es])
-         [] v.t = "obj" -> [t |-> "obj", ks |-> h[v.r].ks, vs |-> [i \in 1..Len(h[v.r].vs) |-> Snap(h[v.r].vs[i], h, nfc, d - 1)]]
+         [] v.t = "obj" -> [t |-> "obj", ks |-> (IF nfc THEN [i \in 1..Len(h[v.r].ks) |-> CpsStr(NFC(StrCps(h[v.r].ks[i])))] ELSE h[v.r].ks), vs |-> [i \in 1..Len(h[v.r].vs) |-> Snap(h[v.r].vs[i], h, nfc, d - 1)]]
          [] v.t = "fn"  -> [t |-> "fn", name |-> h[v.r].name]
          [] v.t = "str" -> [t |-> "str", s |-> IF nfc THEN NFC(v.s) ELSE v.s]
          [] v.t = "num" -> [t |-> "num", n |-> v.n, bits |-> Bits(v.n)]
@@ -82,6 +82,13 @@ SnapDepth == 6
 Tick == steps' = steps + 1 /\ UNCHANGED <<pid, repl>>
 Quiet == UNCHANGED <<out, diags, natlog, stdin, status, why>>                  \* no observable effect, still running
 Goto(c, k) == ctl' = c /\ kont' = k
+(* the first point at which a SOFT result (numeric-looking string used as a number) entered the run: line and number of
+   output records so far; the replay may instead see a type error exactly there *)
+SoftMark(res) == IF IsSoft(res) /\ why = "" THEN "soft:" \o IntStr(ln) \o ":" \o IntStr(Len(out)) ELSE why
+RaiseAtW(kind, line, w) ==
+  /\ status' = "error" /\ diags' = Append(diags, [kind |-> kind, ln |-> line])
+  /\ ctl' = [m |-> "halt"] /\ kont' = <<>> /\ why' = w
+  /\ UNCHANGED <<cur, envs, heap, ln, out, natlog, stdin>>
 RaiseAt(kind, line) ==
   IF "ErrorDoesNotStop" \in Broken /\ ctl.m \in {"eval", "val"}
   THEN /\ diags' = Append(diags, [kind |-> kind, ln |-> line]) /\ status' = "error"      \* reported, but evaluation carries on with nil
@@ -97,8 +104,9 @@ StopUnspec(w) ==
   /\ UNCHANGED <<cur, envs, heap, ln, out, diags, natlog, stdin>>
 (* deliver the result of a pure operation to continuation k *)
 Finish(res, k) ==
-  CASE res.r = "val" -> Goto([m |-> "val", v |-> res.v], k) /\ Quiet /\ UNCHANGED <<cur, envs, heap, ln>>
-    [] res.r = "err" -> Raise(res.kind)
+  CASE res.r = "val" -> /\ Goto([m |-> "val", v |-> res.v], k) /\ why' = SoftMark(res)
+                        /\ UNCHANGED <<out, diags, natlog, stdin, status, cur, envs, heap, ln>>
+    [] res.r = "err" -> (IF IsSoft(res) THEN RaiseAtW(res.kind, ln, SoftMark(res)) ELSE Raise(res.kind))
     [] res.r = "unspec" -> StopUnspec(res.why)
 Running == (status = "run" \/ ("ErrorDoesNotStop" \in Broken /\ status = "error" /\ ctl.m # "halt")) /\ steps < MaxSteps
 
@@ -266,7 +274,10 @@ Alloc(cell, mk(_), k) == /\ heap' = Append(heap, cell) /\ Goto([m |-> "val", v |
 
 IndexIn(v, len) ==    \* position (1-based) denoted by index value v in a sequence of length len
   CASE v.t = "num" -> (IF HasI64(v.n) /\ FitsInt(v.n) /\ ToInt(v.n) >= 0 /\ ToInt(v.n) < len THEN Val(ToInt(v.n) + 1) ELSE Err("index"))
-    [] v.t = "str" -> (IF LooksNumeric(v.s) \/ MaybeNumeric(v.s) THEN Unspec("numeric-string") ELSE Err("index"))
+    [] v.t = "str" -> (IF LooksNumeric(v.s) /\ StrNum(v.s) # "OVERFLOW"
+                       THEN (LET n == StrNum(v.s) IN
+                             IF HasI64(n) /\ FitsInt(n) /\ ToInt(n) >= 0 /\ ToInt(n) < len THEN Soft(Val(ToInt(n) + 1)) ELSE Soft(Err("index")))
+                       ELSE IF LooksNumeric(v.s) \/ MaybeNumeric(v.s) THEN Unspec("numeric-string") ELSE Err("index"))
     [] Vague(v) -> Unspec("vague-operand")
     [] OTHER -> Err("index")
 
@@ -302,7 +313,11 @@ InvokeNative(name, args, k) ==
                        /\ UNCHANGED <<cur, envs, heap, ln, out, stdin, why>>
          Stop(w) == /\ status' = "unspec" /\ why' = w /\ ctl' = [m |-> "halt"] /\ kont' = <<>>
                     /\ UNCHANGED <<cur, envs, heap, ln, out, diags, stdin>>
-         Pure(res) == CASE res.r = "val" -> OK(res.v) [] res.r = "err" -> Fail(res.kind) [] res.r = "unspec" -> Stop(res.why)
+         Pure(res) == CASE res.r = "val" -> (Goto([m |-> "val", v |-> res.v], k) /\ why' = SoftMark(res)
+                                              /\ UNCHANGED <<heap, out, stdin, status, diags, cur, envs, ln>>)
+                        [] res.r = "err" -> (/\ status' = "error" /\ diags' = Append(diags, [kind |-> res.kind, ln |-> ln]) /\ ctl' = [m |-> "halt"] /\ kont' = <<>>
+                                             /\ why' = SoftMark(res) /\ UNCHANGED <<cur, envs, heap, ln, out, stdin>>)
+                        [] res.r = "unspec" -> Stop(res.why)
          New(cell, mk(_)) == /\ heap' = Append(heap, cell) /\ Goto([m |-> "val", v |-> mk(Len(heap) + 1)], k)
                              /\ UNCHANGED <<out, stdin, status, diags, why, cur, envs, ln>>
          IsArr(i) == Len(args) >= i /\ args[i].t = "arr"
@@ -314,7 +329,8 @@ InvokeNative(name, args, k) ==
                             THEN New([t |-> "arr", e |-> heap[args[1].r].e \o Tail(args)], VArr) ELSE Fail("native"))
        [] name = "remove" -> (IF ~IsArr(1) THEN Fail("native")
                               ELSE LET ix == IndexIn(args[2], Len(heap[args[1].r].e)) IN
-                                   IF ix.r = "err" THEN Fail("native") ELSE IF ix.r = "unspec" THEN Stop(ix.why)
+                                   IF ix.r = "err" THEN Pure(Carry(Err("native"), ix, ix)) ELSE IF ix.r = "unspec" THEN Stop(ix.why)
+                                   ELSE IF IsSoft(ix) THEN Stop("numeric-string")
                                    ELSE IF "RemoveShiftsInPlace" \in Broken
                                    THEN /\ heap' = [heap EXCEPT ![args[1].r].e = DropAt(heap[args[1].r].e, ix.v) \o <<heap[args[1].r].e[Len(heap[args[1].r].e)]>>]
                                         /\ Goto([m |-> "val", v |-> args[1]], k) /\ UNCHANGED <<out, stdin, status, diags, why, cur, envs, ln>>
@@ -333,7 +349,7 @@ InvokeNative(name, args, k) ==
        [] name \in {"min", "max"} ->
             (IF Len(args) = 0 THEN Fail("native")
              ELSE Pure(MinMax(name = "min", IF Len(args) = 1 /\ IsArr(1) THEN heap[args[1].r].e ELSE args)))
-       [] name = "clock" -> OK(VApprox("0", -1))
+       [] name = "clock" -> OK(VApprox("0", -1, <<"clock", IntStr(Len(natlog))>>))
        [] name = "input" ->
             (IF Len(args) > 1 \/ (Len(args) = 1 /\ args[1].t # "str") THEN Fail("native")
              ELSE IF stdin = <<>> THEN
@@ -368,12 +384,12 @@ Apply(n, vs, k) ==
     [] n.k \in {"idx", "iasg"} /\ vs[1].t = "arr" /\ IsListing(heap[vs[1].r]) -> StopUnspec("listing-order")
     [] n.k = "idx" -> (IF vs[1].t # "arr" THEN (IF Vague(vs[1]) THEN StopUnspec("vague-operand") ELSE Raise("index"))   \* IndexRead
                        ELSE LET ix == IndexIn(vs[2], Len(heap[vs[1].r].e)) IN
-                            IF ix.r = "val" THEN Finish(Val(heap[vs[1].r].e[ix.v]), k) ELSE Finish(ix, k))
+                            IF ix.r = "val" THEN Finish(Carry(Val(heap[vs[1].r].e[ix.v]), ix, ix), k) ELSE Finish(ix, k))
     [] n.k = "iasg" -> (IF vs[1].t # "arr" THEN (IF Vague(vs[1]) THEN StopUnspec("vague-operand") ELSE Raise("index"))  \* IndexStore
                         ELSE LET ix == IndexIn(vs[2], Len(heap[vs[1].r].e)) IN
                              IF ix.r # "val" THEN Finish(ix, k)
                              ELSE /\ heap' = [heap EXCEPT ![vs[1].r].e[ix.v] = vs[3]] /\ Goto([m |-> "val", v |-> vs[3]], k)
-                                  /\ Quiet /\ UNCHANGED <<cur, envs, ln>>)
+                                  /\ why' = SoftMark(ix) /\ UNCHANGED <<out, diags, natlog, stdin, status, cur, envs, ln>>)
     [] n.k = "prop" -> (IF vs[1].t # "obj" THEN (IF Vague(vs[1]) THEN StopUnspec("vague-operand") ELSE Raise("property"))  \* PropRead
                         ELSE LET cell == heap[vs[1].r]  i == PosOf(cell.ks, n.name) IN
                              IF i = 0 THEN Raise("property") ELSE Finish(Val(cell.vs[i]), k))
